@@ -13,6 +13,8 @@ pub enum Variant {
     Split,
     /// three independent unanchored patterns k=.. n=.. r=..
     Multi,
+    /// JSON-path columns over lines that are JSON objects
+    Json,
 }
 
 #[derive(Clone, Copy, PartialEq, Debug)]
@@ -52,7 +54,7 @@ impl TableCfg {
 }
 
 pub fn gen_table_cfg(rng: &mut Rng) -> TableCfg {
-    let variant = *rng.pick(&[Variant::Capture, Variant::Capture, Variant::Capture, Variant::Split, Variant::Multi]);
+    let variant = *rng.pick(&[Variant::Capture, Variant::Capture, Variant::Capture, Variant::Split, Variant::Multi, Variant::Json]);
     let kmod = *rng.pick(&[KMod::None, KMod::None, KMod::NotNull, KMod::Default, KMod::Trim]);
     let nmod = *rng.pick(&[NMod::None, NMod::None, NMod::NotNull, NMod::Default]);
     let with_b = variant == Variant::Capture && rng.chance(1, 3);
@@ -115,6 +117,17 @@ pub fn table_defs(cfg: &TableCfg) -> String {
                 });
             }
             format!("CREATE TABLE t(line = split ';', {});", cols.join(", "))
+        }
+        Variant::Json => {
+            for c in &cfg.order {
+                cols.push(match *c {
+                    "k" => format!("{{ .k }} => k TEXT{}", kmod),
+                    "n" => format!("{{ .v.n }} => n INT{}", nmod),
+                    "r" => "{ .v.r[0] } => r REAL".to_owned(),
+                    _ => unreachable!(),
+                });
+            }
+            format!("CREATE TABLE t({});", cols.join(", "))
         }
         Variant::Multi => {
             for c in &cfg.order {
@@ -237,6 +250,26 @@ pub fn render_line(cfg: &TableCfg, s: &LineSpec) -> String {
                 (n, Some(r)) => format!("{};{};{}", k, n.clone().unwrap_or_default(), r),
             }
         }
+        Variant::Json => {
+            // {"k":"a","v":{"n":3,"r":[0.25]}} ; an unparsable n is sent as a JSON string
+            let mut fields = Vec::new();
+            if let Some(k) = &s.k {
+                fields.push(format!("\"k\":\"{}\"", k));
+            }
+            let mut inner = Vec::new();
+            if let Some(n) = &s.n {
+                if n.parse::<i64>().is_ok() {
+                    inner.push(format!("\"n\":{}", n));
+                } else {
+                    inner.push(format!("\"n\":\"{}\"", n));
+                }
+            }
+            if let Some(r) = &s.r {
+                inner.push(format!("\"r\":[{}]", r));
+            }
+            fields.push(format!("\"v\":{{{}}}", inner.join(",")));
+            format!("{{{}}}", fields.join(","))
+        }
         Variant::Multi => {
             let mut parts = Vec::new();
             parts.push("ev".to_owned());
@@ -288,6 +321,8 @@ pub fn expected_row(cfg: &TableCfg, s: &LineSpec) -> Option<Vec<Cell>> {
     // which groups take part
     let (k_group, n_group, r_group): (Option<String>, Option<String>, Option<String>) = match cfg.variant {
         Variant::Capture => (s.k.clone(), s.n.clone(), s.r.clone()),
+        // JSON: an absent path gives the DEFAULT, a present value of the wrong JSON type gives NULL
+        Variant::Json => (s.k.clone(), s.n.clone(), s.r.clone()),
         Variant::Multi => {
             // `k=([a-z ]+)` is greedy over blanks: the rendered separator " | " starts with a blank
             let k = s.k.clone().map(|k| if s.n.is_some() || s.r.is_some() { format!("{} ", k) } else { k });
@@ -408,6 +443,20 @@ pub fn noise_pool(cfg: &TableCfg) -> Vec<Vec<u8>> {
                 }
             }
         }
+        Variant::Json => {
+            if unmatched_is_noise {
+                for l in [&b""[..], b"  ", b"not json at all", b"{", b"[1,2,3]", b"{\"K\":\"a\"}", b"{\"v\":{}}", b"{\"k\":5,\"v\":{\"n\":\"x\",\"r\":[\"y\"]}}", b"{\"k\":\"a\"} trailing", b"null"] {
+                    pool.push(l.to_vec());
+                }
+            }
+            if n_required {
+                pool.push(b"{\"k\":\"a\",\"v\":{\"r\":[0.5]}}".to_vec());
+                pool.push(b"{\"k\":\"a\",\"v\":{\"n\":1.5}}".to_vec());
+            }
+            if k_required {
+                pool.push(b"{\"v\":{\"n\":3}}".to_vec());
+            }
+        }
         Variant::Multi => {
             if unmatched_is_noise {
                 for l in [&b""[..], b"  ", b"nothing here", b"K=a N=1"] {
@@ -526,9 +575,17 @@ pub fn gen_filter(rng: &mut Rng, cfg: &TableCfg, prefix: &str) -> String {
         format!("NOT ({}n = {})", prefix, c),
         format!("{}n IN ({}, {})", prefix, c, c + 1),
     ];
+    pool.push(format!("CASE WHEN {}n > {} THEN true ELSE {}r < 1.0 END", prefix, c, prefix));
+    pool.push(format!("length({}k) >= 2 OR {}n = {}", prefix, prefix, c));
+    pool.push(format!("abs({}n) <= {}", prefix, c + 1));
+    pool.push(format!("'1'::int <= {}n AND {}r::text != 'x'", prefix, prefix));
+    pool.push(format!("{}k IN ('{}', 'dd') AND NOT {}n IS NULL", prefix, key, prefix));
     if cfg.with_b {
         pool.push(format!("{}b", prefix));
         pool.push(format!("NOT {}b", prefix));
+    }
+    if cfg.with_ts {
+        pool.push(format!("EXTRACT(YEAR FROM {}d) >= 2021", prefix));
     }
     rng.pick(&pool).clone()
 }
@@ -566,7 +623,10 @@ pub fn gen_select(rng: &mut Rng, cfg: &TableCfg, allow_join: bool) -> Query {
         q.join = Some(gen_join(rng));
     }
     let p = if join { "t." } else { "" };
-    q.projections = match rng.below(9) {
+    q.projections = match rng.below(12) {
+        9 => vec![format!("CASE WHEN {}n > 0 THEN 'pos' WHEN {}n < 0 THEN 'neg' ELSE 'zero' END AS sgn", p, p), format!("{}k", p)],
+        10 => vec![format!("{}n::text AS nt", p), format!("length({}k) AS len", p), format!("greatest({}n, 1) AS g", p)],
+        11 => vec![format!("lower({}k) AS lk", p), format!("{}n IS NULL AS nn", p), format!("{}r * 2.0 AS r2", p)],
         0 => vec!["*".to_owned()],
         1 => vec!["input".to_owned()],
         2 => vec![format!("{}k", p)],
@@ -600,11 +660,12 @@ pub struct AggCfg {
 pub fn agg_pool(cfg: &TableCfg, order_insensitive: bool, p: &str) -> Vec<String> {
     let mut pool = vec![
         "COUNT(*)".to_owned(),
-        format!("COUNT({}n)", p),
-        format!("COUNT({}k)", p),
-        format!("COUNT(DISTINCT {}k)", p),
-        format!("COUNT(DISTINCT {}n)", p),
-        format!("COUNT(DISTINCT {}r)", p),
+        // COUNT takes a plain column name only ("COUNT(t.n)" does not parse); unqualified names resolve to the queried table
+        "COUNT(n)".to_owned(),
+        "COUNT(k)".to_owned(),
+        "COUNT(DISTINCT k)".to_owned(),
+        "COUNT(DISTINCT n)".to_owned(),
+        "COUNT(DISTINCT r)".to_owned(),
         format!("SUM({}n)", p),
         format!("SUM({}r)", p),
         format!("MIN({}n)", p),
@@ -629,12 +690,12 @@ pub fn agg_pool(cfg: &TableCfg, order_insensitive: bool, p: &str) -> Vec<String>
     if cfg.with_ts {
         pool.push(format!("MIN({}d)", p));
         pool.push(format!("MAX({}d)", p));
-        pool.push(format!("COUNT(DISTINCT {}d)", p));
+        pool.push("COUNT(DISTINCT d)".to_owned());
     }
     // arithmetic wrapped around numeric aggregates ("an arithmetic wrapper around an aggregate applied to that aggregate's value")
     for (agg, wrap) in [
         ("COUNT(*)", "+ 1"),
-        ("COUNT(DISTINCT {}n)", "* 2"),
+        ("COUNT(DISTINCT n)", "* 2"),
         ("PERCENTILE({}n, 0.5)", "* 2"),
         ("PERCENTILE({}r, 0.9)", "+ 1.0"),
         ("AVG({}r)", "* 2.0"),
@@ -658,7 +719,7 @@ pub fn gen_having(rng: &mut Rng, cfg: &TableCfg, group_by: &[String], p: &str) -
         format!("COUNT(*) < {}", rng.range(2, 4)),
         format!("SUM({}n) > {}", p, c),
         format!("MAX({}n) <= {}", p, c + 2),
-        format!("COUNT({}n) >= 1", p),
+        "COUNT(n) >= 1".to_owned(),
         format!("COUNT(*) >= 1 AND MIN({}n) < {}", p, c + 3),
     ];
     if let Some(g) = group_by.first() {
